@@ -1,5 +1,6 @@
 import RV.C01.Lemmas
 import RV.C01.LemNSimple
+import RV.C01.LemGen
 /-
   C01 — property theorems.
 
@@ -745,6 +746,50 @@ theorem binop_nested : Statement_binop_nested := by
   simp only [abs_eq_InG]
   simp only [hsa, hsb] at h
   exact ⟨h.1, h.2.1, h.2.2.1, h.2.2.2.1⟩
+
+/-! ### Round g: the generator as it is — level-by-level key copies (`NGen`, `NModel.lean`)
+
+  `iter_sound` above is about an over-approximating machine (the environment may load any candidate that is in the
+  selected index at that moment).  `NGen` is the real discipline: `list(d.keys())` one level at a time, live lookup
+  `d[k]` of each copied key when the loop reaches it, has-context test on the live store before each `yield`, start copy
+  of `__contextTriples[ctx]` for the all-unbound shape; the generator body begins at the first `next()`. -/
+
+/-- for every history before, every pattern shape, every schedule of store-level / Graph-level mutations and `next()`
+    calls: no step raises (in particular no `KeyError` from `d[k]` on a copied key, no `None.keys()`), and every yielded
+    triple matches the pattern and was in the iterated graph in one of the states since the generator began -/
+def Statement_gen_sound : Prop :=
+  ∀ (pre : List StOp) (pat : Pat) (g : Nat) (evs : List GEv),
+    gschedRaises (NMem.init.stRun pre) (NGen.new pat (some g)) evs = false ∧
+    ∀ y ∈ gyields [] (NMem.init.stRun pre) (NGen.new pat (some g)) evs,
+      pat.matches y.1 = true ∧ ∃ n' ∈ y.2, abs n'.toMem y.1 g
+
+/-- with nothing interleaved the generator, `next()` after `next()`, produces exactly `store.triples(pattern, context)`
+    (`NMem.triples`, which `nested_refines_quadset` proves duplicate-free and equal to the set): the full run `drain`
+    is that list, every `next()` yields the head of what remains and leaves the rest, and exhaustion means nothing remains -/
+def Statement_gen_quiescent : Prop :=
+  ∀ (n : NMem) (pat : Pat) (req : Ctx),
+    n.drain pat req = n.triples pat req ∧
+    ∀ (work : List Work),
+      (∀ t, (n.runGen pat req work).2 = some t →
+          n.runAll pat req work = t :: n.runAll pat req (n.runGen pat req work).1) ∧
+      ((n.runGen pat req work).2 = none → n.runAll pat req work = [])
+
+theorem gen_sound : Statement_gen_sound := by
+  intro pre pat g evs
+  have hg := ngood_stRun pre _ ngood_init
+  have h := gyields_sound g pat evs [] (NMem.init.stRun pre) (NGen.new pat (some g)) hg rfl rfl
+    (fun h => by simp [NGen.new] at h)
+  exact h
+
+theorem gen_quiescent : Statement_gen_quiescent :=
+  fun n pat req => ⟨drain_eq_triples n pat req, runGen_runAll n pat req⟩
+
+/-- a schedule on which the concrete generator really walks two levels between mutations: `(1,?,?)` on graph 0;
+    `(1,2,4)` is removed before the inner copy `[3,4]` reaches it, `(1,5,6)` is added under a NEW second-level key after
+    the outer copy `[2]` was taken (not seen), `(1,2,7)` under the already expanded key (not seen either) -/
+example : (gyields [] (NMem.init.stRun [.add (1, 2, 3) 0, .add (1, 2, 4) 0]) (NGen.new (some 1, none, none) (some 0))
+    [.next, .mutate (.remove (some 1, some 2, some 4) (some 0)), .mutate (.add (1, 5, 6) 0), .mutate (.add (1, 2, 7) 0),
+     .next, .next]).map (·.1) = [(1, 2, 3)] := by decide
 
 /-! ### Non-vacuity: a reachable state with one context set compressed to the default and one explicit -/
 
